@@ -146,7 +146,7 @@ func checkC17(w *World, r *Recorder) propInfo {
 		for _, site := range ef.LeakSites {
 			var gs []string
 			for _, g := range site.Prov.sharedGlobals() {
-				if !immutableSharedType(g.Type().(*types.Pointer).Elem()) {
+				if !immutableGlobalElem(g.Type().(*types.Pointer).Elem()) {
 					gs = append(gs, g.Name())
 				}
 			}
@@ -192,7 +192,7 @@ func checkC17(w *World, r *Recorder) propInfo {
 			}
 			var gs []string
 			for _, g := range ef.RetProv[i].sharedGlobals() {
-				if !immutableSharedType(g.Type().(*types.Pointer).Elem()) {
+				if !immutableGlobalElem(g.Type().(*types.Pointer).Elem()) {
 					gs = append(gs, g.Name())
 				}
 			}
@@ -590,8 +590,153 @@ func immutableSharedType(t types.Type) bool {
 	return false
 }
 
+// immutableGlobalElem: a package-level variable whose *address* (or interior)
+// a value may reference is harmless to share only if nobody can write through
+// that reference: sentinel errors, codec modes, compiled patterns, functions.
+// Unlike immutableSharedType this does not exempt plain value types — a
+// pointer to a package-level uint or string is shared mutable memory.
+func immutableGlobalElem(t types.Type) bool {
+	ts := t.String()
+	if isErrorType(t) || ts == pCBOR+".EncMode" || ts == pCBOR+".DecMode" || strings.Contains(ts, "regexp.Regexp") {
+		return true
+	}
+	_, isSig := t.Underlying().(*types.Signature)
+	return isSig
+}
+
 // leakIntoGlobal: the store's target is itself package-level memory (the
 // registration function filling the register): not an object of a caller.
 func leakIntoGlobal(site WriteSite) bool {
 	return len(site.Target.Globals) > 0 && site.Target.Params == 0 && !site.Target.Unknown
+}
+
+// ruleSettersStoreOwnedMemory: nothing a setter (or anything it calls) puts
+// into the object it is called on may reference mutable package-level memory.
+// What a claims-set holds after its setters ran must be memory of that
+// claims-set alone: a pointer field aimed at a shared variable is rewritten
+// by the next decode into *any* object that carries the same pointer (the
+// decoders store through existing non-nil pointers), so what a later encode
+// emits for this set — and what its getters return — depends on unrelated
+// objects. Same leak-site scan as C17-X5, rooted at the write-side API instead
+// of the read side. Immutable shared values (sentinel errors, codec modes,
+// patterns, functions) are exempt by type as in X5.
+func ruleSettersStoreOwnedMemory(w *World, r *Recorder, rule string) {
+	type root struct {
+		fn   *ssa.Function
+		name string
+	}
+	var roots []root
+	for _, in := range []string{"IClaims", "ISwComponent"} {
+		it := w.iface(w.Root, in)
+		if it == nil {
+			r.Undecide(rule, "interface "+in, "-", "not found")
+			continue
+		}
+		for _, t := range w.Implementations(it) {
+			for i := 0; i < it.NumMethods(); i++ {
+				m := it.Method(i).Name()
+				if !strings.HasPrefix(m, "Set") {
+					continue
+				}
+				if fn := w.MethodImpl(t, m); fn != nil {
+					roots = append(roots, root{fn, t.Obj().Name() + "." + m})
+				} else {
+					r.Undecide(rule, t.Obj().Name()+"."+m, "-", "setter body not found")
+				}
+			}
+		}
+	}
+	for _, fn := range w.Funcs {
+		if len(fn.TypeArgs()) == 0 || fn.Signature.Recv() == nil || !strings.Contains(fn.Signature.Recv().Type().String(), "SwComponents[") {
+			continue
+		}
+		switch baseName(fn) {
+		case "Add", "Replace":
+			roots = append(roots, root{fn, "SwComponents." + baseName(fn)})
+		}
+	}
+	if fn := w.findFunc("Evidence", "SetClaims"); fn != nil {
+		roots = append(roots, root{fn, "Evidence.SetClaims"})
+	}
+	eff := w.Effects()
+	seen := map[string]bool{}
+	for _, rt := range roots {
+		if seen[rt.name] {
+			continue
+		}
+		seen[rt.name] = true
+		bad := false
+		for _, fn := range sortedFuncs(w.Reachable([]*ssa.Function{rt.fn})) {
+			ef := eff[fn]
+			if ef == nil {
+				continue
+			}
+			for _, site := range ef.LeakSites {
+				var gs []string
+				for _, g := range site.Prov.sharedGlobals() {
+					if !immutableGlobalElem(g.Type().(*types.Pointer).Elem()) {
+						gs = append(gs, g.Name())
+					}
+				}
+				if len(gs) == 0 || leakIntoGlobal(site) {
+					continue
+				}
+				if st, ok := site.Instr.(*ssa.Store); ok && immutableSharedType(st.Val.Type()) {
+					continue
+				}
+				sort.Strings(gs)
+				bad = true
+				r.Refute(rule, rt.name+"#"+fnKey(fn)+":"+site.What+":"+strings.Join(gs, ","), w.InstrPos(site.Instr),
+					fmt.Sprintf("%s (reached from the setter %s) stores a value that references package-level memory %v into the object being set: every object set this way shares that memory, and a decode into one of them rewrites what the others emit", fnKey(fn), rt.name, gs))
+			}
+		}
+		if !bad {
+			r.Prove(rule, rt.name, w.FnPos(rt.fn), "every value the setter stores is the caller's argument or fresh memory", true)
+		}
+	}
+}
+
+// ruleDispatchKeepsNoState: the dispatchers (NewClaims and the claims decoders)
+// write no package-level memory. A cache or memo filled by one decode is a
+// snapshot of the register (or of an earlier verdict) that a later
+// RegisterProfile does not reach: the same token then decodes differently
+// depending on what was decoded before the registration. The register itself
+// is written only by the registration functions, which are not reachable from
+// the dispatchers (C16-N1).
+func ruleDispatchKeepsNoState(w *World, r *Recorder, rule string) {
+	eff := w.Effects()
+	for _, n := range []string{"NewClaims", "DecodeClaimsFromCBOR", "DecodeClaimsFromJSON"} {
+		root := w.Root.Func(n)
+		if root == nil {
+			r.Undecide(rule, n, "-", "dispatcher not found")
+			continue
+		}
+		bad := false
+		for _, fn := range sortedFuncs(w.Reachable([]*ssa.Function{root})) {
+			ef := eff[fn]
+			if ef == nil {
+				continue
+			}
+			for _, site := range ef.Sites {
+				if len(site.Prov.Globals) == 0 {
+					continue
+				}
+				var gs []string
+				for g := range site.Prov.Globals {
+					gs = append(gs, g.Name())
+				}
+				sort.Strings(gs)
+				bad = true
+				r.Refute(rule, n+"#"+fnKey(fn)+":"+site.What+":"+strings.Join(gs, ","), w.InstrPos(site.Instr),
+					fmt.Sprintf("%s (reached from %s) writes package-level state %v via %s: what a decode leaves there is not updated by a later registration, so dispatch depends on the order of decodes and registrations", fnKey(fn), n, gs, site.What))
+			}
+			if ef.WritesUnknown {
+				bad = true
+				r.Undecide(rule, n+"#"+fnKey(fn)+":unknown-target", w.FnPos(fn), "write whose target the provenance analysis cannot bound")
+			}
+		}
+		if !bad {
+			r.Prove(rule, n, w.FnPos(root), "writes no package-level memory", true)
+		}
+	}
 }
